@@ -6,7 +6,7 @@ HOOKS = {
     "add_only": True,
 }
 ENGINES = [
-    {"name": "kani", "path": "/verif/lib/kanirun.py", "serves_properties": ["C04", "C05", "C14", "C15", "C18"],
+    {"name": "kani", "path": "/verif/lib/kanirun.py", "serves_properties": ["C01", "C03", "C04", "C05", "C10", "C14", "C15", "C17", "C18"],
      "kind_free_text": "Kani 0.68 / CBMC 6.11 on the compiled real crate (/verif/kani, path dependency on /repo with feature verif-hooks); one process per harness, memory-budgeted; failing harnesses are replayed natively through Kani's concrete playback"},
     {"name": "verus", "path": "/verif/lib/verusrun.py", "serves_properties": ["C17", "C06", "C07", "C01", "C10"],
      "kind_free_text": "Verus 0.2026.09.13 (z3) on text extracted from /repo/src on every run by /verif/tools/extract (syn AST anchors, byte-copied bodies)"},
@@ -85,8 +85,14 @@ CHECKS["C14"] = {
     "text": "PARTIAL: constellation (DVB-S2 Gray mapping, unit energy), BPSK mapping and LLR sign structure, and noiseless hard decisions are decided; that the soft values equal the exact posterior log-ratio is NOT decided (floating-point equivalence did not finish in CBMC).",
     "note": "A change of the LLR scale factor or of an 8PSK soft-value partition that keeps the hard decisions at the eight noiseless points is not detected.",
 }
+CHECKS["C03"] = {
+    "engine": "kani",
+    "design_ref": "DESIGN.md section 5, C03",
+    "technique": "bounded Kani harness: the real generic decoders instantiated with a checker-supplied exact min-sum arithmetic, against an executable textbook specification",
+    "text": "BOUNDED stand-in (never counted as proved): result equality with the textbook flooding and layered schedules for all integer LLR vectors in [-7,7]^n on fixed 2x3 / 3x4 matrices, limit <= 2.",
+    "note": "The exact-posterior clause (sum-product on forests) is not decided. Bounds listed per harness in the evidence.",
+}
 NOT_APPLICABLE = {
-    "C03": "check under construction (DESIGN.md section 5, C03)",
     "C02": "encoder: Array2<GF2> elimination, ndarray dot/concatenate and iter_all() are outside Verus; Kani cannot carry a symbolic SparseMatrix (measured blow-up); only GF(2) scalar laws are in reach and they do not decide the property",
     "C08": "alist text: fmt::Write, split, split_whitespace, parse - no str reasoning in Verus; in Kani the parser ends in SparseMatrix::new + insert, the measured blow-up",
     "C09": "systematic conversion: Array2<GF2> from a foreign crate cannot be linked into a single-file Verus run; Kani on all 2x3 matrices did not finish in 40 min",
